@@ -19,7 +19,7 @@ RULE = ('Dispatch: EVERY operation sequence of depth <= D over a 21-operation al
         'unconnect(callback), unconnect(sender), unconnect(owner of a bound method), reset, '
         'set_silent(T/F), enter/exit silent() (well nested), exit silent() by an exception, 4 emits} on a '
         'fresh EventEmitter, followed by probe emits; plus seeded random histories of length <= 14 over '
-        'the full alphabet (3 callbacks, 2 events, senders S1/S2 with value equality - every other emit comes from an equal but distinct sender object -, single, args/kwargs), a third of them '
+        'the full alphabet (3 callbacks, 2 events, senders S1/S2 with value equality - every other emit comes from an equal but distinct sender object -, single, args/kwargs, a callback that raises - the exception must propagate and leave the emitter usable), a third of them '
         'through the module-level global emitter. Every callback invocation is recorded by the callback '
         'itself (id, sender, args, kwargs) and each emit is compared with a list reference machine. '
         'Progress: EVERY history of depth <= P over {increment, value=0..3, max=0..3, set_complete, '
@@ -94,8 +94,17 @@ class World(object):
             return f
         self.funcs = {('A', 'e1'): mk('A', 'e1'), ('A', 'e2'): mk('A', 'e2')}
 
+        def mk_raiser(event):
+            def raiser(sender, *a, **k):
+                me.log.append(('R', sender, a, k))
+                raise KeyError('callback failure')
+            raiser.__name__ = 'on_' + event
+            return raiser
+        self.funcs[('R', 'e1')] = mk_raiser('e1')
+        self.funcs[('R', 'e2')] = mk_raiser('e2')
+
     def cb(self, tok, event):
-        if tok == 'A':
+        if tok in ('A', 'R'):
             return self.funcs[(tok, event)], None
         return getattr(self.owners[tok], 'on_' + event), tok
 
@@ -164,6 +173,9 @@ class World(object):
         elif k == 'emit':
             _, event, s, single, args, kwargs = op
             exp = self.ref.expected_calls(event, self.S[s], single)
+            raises = any(c[0] == 'R' for c in exp)
+            if raises:          # a failing callback ends the dispatch; the emitter must stay usable afterwards
+                exp = exp[:[c[0] for c in exp].index('R') + 1]
             del self.log[:]
             kw = dict(kwargs)
             if single:
@@ -172,8 +184,10 @@ class World(object):
             self.n_emits = getattr(self, 'n_emits', 0) + 1
             sender_obj = self.S[s] if self.n_emits % 2 else Sender(s)
             r = call(self.f['emit'], event, sender_obj, *args, **kw)
-            if not r.ok:
+            if not r.ok and not (raises and isinstance(r.exc, KeyError)):
                 return 'emit raised %r' % r.exc
+            if raises and r.ok:
+                return 'the exception of a failing callback was swallowed by emit'
             got = [(c[0], event) for c in self.log]
             exp_tok = [(c[0], event) for c in exp]
             if got != exp_tok:
@@ -184,7 +198,7 @@ class World(object):
                 if c[1] is not sender_obj or tuple(c[2]) != tuple(args) or c[3] != dict(kwargs):
                     return 'callback %s received sender/args %r %r %r, emitted %r %r' % (
                         c[0], c[1], c[2], c[3], args, kwargs)
-            if not self.ref.silent:
+            if not self.ref.silent and not raises:
                 rets = [('ret', c[0]) for c in self.log]
                 if single:
                     ok = (r.value == rets[0]) if rets else (r.value in ([], None))
@@ -243,8 +257,8 @@ def random_ops(rng):
     for _ in range(int(rng.integers(2, 15))):
         k = int(rng.integers(0, 14))
         if k <= 4:
-            tok = 'ABC'[int(rng.integers(0, 3))]
-            style = ['name', 'explicit', 'decorator'][int(rng.integers(0, 3))]
+            tok = 'ABCR'[int(rng.integers(0, 4))] if rng.random() < 0.5 else 'ABC'[int(rng.integers(0, 3))]
+            style = ['name', 'explicit', 'decorator'][int(rng.integers(0, 3))] if tok != 'R' else 'explicit'
             ops.append(('connect', tok, ['e1', 'e2'][int(rng.integers(0, 2))], style,
                         [None, None, 'S1', 'S2'][int(rng.integers(0, 4))], bool(rng.integers(0, 3) == 0)))
         elif k == 5:
@@ -252,7 +266,7 @@ def random_ops(rng):
             for _j in range(int(rng.integers(1, 3))):
                 t = int(rng.integers(0, 3))
                 if t == 0:
-                    items.append(('cb', ('ABC'[int(rng.integers(0, 3))], ['e1', 'e2'][int(rng.integers(0, 2))])))
+                    items.append(('cb', ('ABCR'[int(rng.integers(0, 4))], ['e1', 'e2'][int(rng.integers(0, 2))])))
                 elif t == 1:
                     items.append(('sender', ['S1', 'S2'][int(rng.integers(0, 2))]))
                 else:
